@@ -35,6 +35,7 @@ type stubPeer struct {
 	src   *Src
 	limit int32 // answer this many requests, then stay silent (-1 = all)
 	seen  int32
+	lack  map[common.Hash]bool // nodes this peer does not have: it answers, but without them
 }
 
 func (p *stubPeer) Head() (common.Hash, *big.Int)                                { return common.Hash{}, new(big.Int) }
@@ -49,8 +50,11 @@ func (p *stubPeer) RequestNodeData(kind types.TrieKind, hashes []common.Hash) er
 	if lim >= 0 && n > lim {
 		return nil
 	}
-	var blobs [][]byte
+	blobs := [][]byte{} // a real (non-nil) packet even when it carries nothing
 	for _, h := range hashes {
+		if p.lack[h] {
+			continue
+		}
 		if b, err := p.src.db.Get(h[:]); err == nil {
 			blobs = append(blobs, b)
 		}
@@ -117,6 +121,18 @@ func (e *launchEnv) addPeer(limit int) {
 	e.l.RegisterPeer("stub", e.peer)
 	e.log(fmt.Sprintf("peer registered (answers %d requests; -1 = all)", limit))
 }
+func (e *launchEnv) addPeerLacking(id string, lack ...common.Hash) {
+	m := map[common.Hash]bool{}
+	for _, h := range lack {
+		m[h] = true
+	}
+	e.l.RegisterPeer(id, &stubPeer{id: id, l: e.l, src: e.src, limit: -1, lack: m})
+	if len(lack) == 0 {
+		e.log("honest peer " + id + " registered")
+	} else {
+		e.log(fmt.Sprintf("peer %s registered: answers every request, but never has node %x", id, lack[0][:6]))
+	}
+}
 func (e *launchEnv) doCancel() { e.l.Cancel(); e.cancel = true; e.log("Cancel()") }
 func (e *launchEnv) doQuit()   { e.l.Quit(); e.quit = true; e.log("quitCh closed") }
 func (e *launchEnv) newCycle() {
@@ -167,6 +183,12 @@ type launchCampaign struct {
 
 // judge applies the oracle to one outcome and emits the ZLaunch observation.
 func (c *launchCampaign) judge(name, entry string, e *launchEnv, out launchOut, pend *int32, expectTermination bool) {
+	c.judgeX(name, entry, e, out, pend, expectTermination, "")
+}
+
+// expect: "" nothing beyond the oracle, "error" = the history must end with the
+// error of process, "nil" = it must complete
+func (c *launchCampaign) judgeX(name, entry string, e *launchEnv, out launchOut, pend *int32, expectTermination bool, expect string) {
 	r := &runner{in: e.in, src: e.src, dst: e.dst, it: newInterner(), res: &runResult{classes: map[string]int{}}}
 	complete := r.compareContent() == ""
 	class := "launch_" + name + "_"
@@ -185,6 +207,12 @@ func (c *launchCampaign) judge(name, entry string, e *launchEnv, out launchOut, 
 	if out.done && out.err == nil && !complete {
 		hit("completion-reported-for-incomplete-trie",
 			fmt.Sprintf("%s returned nil in history '%s' but the trie under the requested root is not readable locally: %s", entry, name, r.compareContent()))
+	}
+	if expect == "error" && out.done && errClass(out.err) != 3 {
+		hit("process-error-not-reported", fmt.Sprintf("%s in history '%s' ended with %v; process() had to fail (a node nobody has / an invalid node) and the sync must report that error", entry, name, out.err))
+	}
+	if expect == "nil" && out.done && out.err != nil {
+		hit("sync-with-an-honest-peer-failed", fmt.Sprintf("%s in history '%s' ended with %v although one peer has every node", entry, name, out.err))
 	}
 	if !out.done && expectTermination {
 		hit("launch-history-did-not-terminate", fmt.Sprintf("%s in history '%s' did not return within 10s", entry, name))
@@ -236,6 +264,27 @@ func launchSources() []*CaseIn {
 }
 
 // one named history; returns nothing, records through judge
+// sources holding something process() must reject
+func oddLaunchSources() []*CaseIn {
+	var stor [][2]string
+	for j := 0; j < 6; j++ {
+		stor = append(stor, [2]string{fmt.Sprintf("%064x", 0x2000+j*0x01010101), "a0" + fmt.Sprintf("%064x", j+7)})
+	}
+	k := func(b string) string { return strings.Repeat(b, 32) } // spread keys: leaves are hashed nodes of their own
+	return []*CaseIn{
+		// a storage root whose blob is not a trie node: decodeNode fails on the delivered bytes
+		{Mode: "state", Accounts: []AccIn{
+			{Key: k("11"), Nonce: 1, Code: "6060604052" + strings.Repeat("22", 40), Storage: stor},
+			{Key: k("22"), Nonce: 2, RootBlob: "0102030405060708090a0b0c0d0e0f"},
+			{Key: k("33"), Nonce: 3}}},
+		// a leaf that is not an account: the state-sync callback fails
+		{Mode: "state", Accounts: []AccIn{
+			{Key: k("11"), Nonce: 1, Storage: stor},
+			{Key: k("22"), Nonce: 2, RawLeaf: "c3010203"},
+			{Key: k("33"), Nonce: 3, Deleg: "de02"}}},
+	}
+}
+
 func (c *launchCampaign) history(name, entry string, in *CaseIn, dst *youdb.MemDatabase) *youdb.MemDatabase {
 	src := buildSource(in)
 	if dst == nil {
@@ -296,6 +345,44 @@ func (c *launchCampaign) history(name, entry string, in *CaseIn, dst *youdb.MemD
 		atomic.StoreInt32(&e.peer.limit, -1)
 		res, pend = e.launch(entry)
 		c.judge("relaunch_after_cancel", entry, e, wait(res, long), pend, true)
+	case "lack_node_single_peer", "lack_node_all_peers", "lack_root_all_peers", "lack_node_one_of_three":
+		// peers that answer every request with a real packet which never contains one node
+		x := src.root
+		if name != "lack_root_all_peers" {
+			for i := range src.all {
+				if h := src.all[(len(src.all)/2+i)%len(src.all)]; h != src.root {
+					x = h
+					break
+				}
+			}
+		}
+		e.startFetcher()
+		switch name {
+		case "lack_node_single_peer":
+			e.addPeerLacking("p0", x)
+		case "lack_node_one_of_three":
+			e.addPeerLacking("p0", x)
+			e.addPeerLacking("p1")
+			e.addPeerLacking("p2", x)
+		default:
+			e.addPeerLacking("p0", x)
+			e.addPeerLacking("p1", x)
+			e.addPeerLacking("p2", x)
+		}
+		res, pend := e.launch(entry)
+		expect := "error"
+		if name == "lack_node_one_of_three" {
+			expect = "nil"
+		}
+		c.judgeX(name, entry, e, wait(res, long), pend, true, expect)
+	case "invalid_node_honest_peers":
+		// the source itself holds something process must reject (a storage root that is
+		// not a trie node, a leaf that is not an account): "invalid trie node"
+		e.startFetcher()
+		e.addPeerLacking("p0")
+		e.addPeerLacking("p1")
+		res, pend := e.launch(entry)
+		c.judgeX(name, entry, e, wait(res, long), pend, true, "error")
 	case "quit_while_queued":
 		e.addPeer(-1)
 		res, pend := e.launch(entry)
@@ -319,15 +406,21 @@ func (c *launchCampaign) history(name, entry string, in *CaseIn, dst *youdb.MemD
 var launchHistories = []struct {
 	name string
 	reps int
+	odd  bool // runs on the sources whose content process() must reject
 }{
-	{"honest", 1},
-	{"cancel_before_launch_fetcher_idle", 12},
-	{"cancel_before_launch_fetcher_busy", 4},
-	{"cancel_during_launch_fetcher_busy", 4},
-	{"cancel_with_previous_trie_running", 3},
-	{"cancel_mid_sync_then_new_cycle", 1},
-	{"quit_while_queued", 1},
-	{"root_already_local_cancelled", 1},
+	{"lack_node_single_peer", 2, false},
+	{"lack_node_all_peers", 2, false},
+	{"lack_root_all_peers", 1, false},
+	{"lack_node_one_of_three", 2, false},
+	{"invalid_node_honest_peers", 2, true},
+	{"honest", 1, false},
+	{"cancel_before_launch_fetcher_idle", 12, false},
+	{"cancel_before_launch_fetcher_busy", 4, false},
+	{"cancel_during_launch_fetcher_busy", 4, false},
+	{"cancel_with_previous_trie_running", 3, false},
+	{"cancel_mid_sync_then_new_cycle", 1, false},
+	{"quit_while_queued", 1, false},
+	{"root_already_local_cancelled", 1, false},
 }
 
 func entryFor(in *CaseIn, k int) string {
@@ -344,14 +437,28 @@ func entryFor(in *CaseIn, k int) string {
 // when name != "" (replay).
 func runLaunchCampaign(res *vf.Result, only, onlyEntry string, onlySrc *CaseIn) *launchCampaign {
 	c := &launchCampaign{res: res}
-	srcs := launchSources()
+	type srcT struct {
+		in  *CaseIn
+		odd bool
+	}
+	var srcs []srcT
+	for _, in := range launchSources() {
+		srcs = append(srcs, srcT{in, false})
+	}
+	for _, in := range oddLaunchSources() {
+		srcs = append(srcs, srcT{in, true})
+	}
 	if onlySrc != nil {
-		srcs = []*CaseIn{onlySrc}
+		srcs = []srcT{{onlySrc, false}}
 	}
 	k := 0
-	for _, in := range srcs {
+	for _, sr := range srcs {
+		in := sr.in
 		for _, h := range launchHistories {
 			if only != "" && !strings.HasPrefix(only, h.name) {
+				continue
+			}
+			if onlySrc == nil && h.odd != sr.odd {
 				continue
 			}
 			reps := h.reps
